@@ -96,13 +96,13 @@ func init() {
 		Assumptions: []string{"storage errors are injected at the boltz write primitives (verif hook), not inside bbolt's commit", "quiescence of asynchronous callbacks is awaited by goroutine-count baseline"},
 		Plan: func(tier core.Tier, seed int64) int {
 			if tier == core.Thorough {
-				return 30000
+				return 30000 + c07ValueCases*4
 			}
-			return 64
+			return 64 + c07ValueCases
 		},
 		Run: runC07,
 		Promises: func(core.Tier) map[string][]string {
-			return map[string][]string{"failure_kind": {"storage", "caller", "veto", "rejected-op", "precommit", "batch-storage"}, "precommit_registration": {"before-call batch=false", "before-call batch=true"},
+			return map[string][]string{"unsupported_value": {"top level", "inside a list", "inside a map inside a list", "inside a list inside a map", "last element of a long list", "inside a nested map"}, "failure_kind": {"storage", "caller", "veto", "rejected-op", "precommit", "batch-storage"}, "precommit_registration": {"before-call batch=false", "before-call batch=true"},
 				"veto_site": {"emps:1:parent=false", "emps:2:parent=false", "emps:3:parent=true", "emps/xt:3:parent=false", "depts:3:parent=false", "emps/ext:3:parent=false", "emps:1:parent=true", "emps:2:parent=true"}}
 		},
 		MinCounters: func(core.Tier) map[string]int64 { return map[string]int64{"injections": 1500, "bodies_committed": 100} },
@@ -110,6 +110,14 @@ func init() {
 }
 
 func runC07(c *core.Ctx, idx int) {
+	nEnum := 64
+	if c.Tier == core.Thorough {
+		nEnum = 30000
+	}
+	if idx >= nEnum {
+		c07ValueCase(c, idx-nEnum)
+		return
+	}
 	r := c.Rand()
 	cfg := c15Configs[idx%len(c15Configs)]
 	e, err := kmodel.NewEngine(c, cfg)
